@@ -32,6 +32,10 @@ WANT_KINDS = {
 }
 
 
+class NotGridTime(Exception):
+    pass
+
+
 def grid_time_of(expr, flow, epoch_name, names, kinds, mod):
     """Normalise an epoch expression to (end, mask, total offset) or raise.
     Accepts int(E), epoch[I], epoch[I] + k*step, with I affine in one run end;
@@ -49,7 +53,7 @@ def grid_time_of(expr, flow, epoch_name, names, kinds, mod):
         sign = 1 if isinstance(core.op, ast.Add) else -1
         k = _step_multiple(core.right, epoch_name, mod)
         if k is None:
-            raise AnalysisError("epoch expression %s adds something that is not a whole number of steps" % ast.unparse(e)[:80])
+            raise NotGridTime("epoch expression %s adds something that is not a whole number of steps" % ast.unparse(e)[:80])
         steps = sign * k
         core = core.left
     if not (isinstance(core, ast.Subscript) and isinstance(core.value, ast.Name) and core.value.id == epoch_name):
@@ -118,6 +122,16 @@ def _step_multiple(node, epoch_name, mod):
                     and isinstance(x.slice, ast.Constant) and x.slice.value == i
             return el(a, 1) and el(b, 0)
         return False
+    # epoch[a] - epoch[b] with literal a, b: (a - b) steps of the uniform grid
+    if isinstance(node, ast.BinOp) and isinstance(node.op, ast.Sub):
+        def lit(x):
+            if isinstance(x, ast.Subscript) and isinstance(x.value, ast.Name) and x.value.id == epoch_name \
+                    and isinstance(x.slice, ast.Constant) and isinstance(x.slice.value, int) and x.slice.value >= 0:
+                return x.slice.value
+            return None
+        a_, b_ = lit(node.left), lit(node.right)
+        if a_ is not None and b_ is not None:
+            return a_ - b_
     if is_step(node):
         return 1
     if isinstance(node, ast.BinOp) and isinstance(node.op, ast.Mult):
@@ -312,6 +326,11 @@ def run(ctx, chk, tier="quick"):
             sinks += 1
             try:
                 cases = grid_time_of(pd[v[1]], maflow, epoch_name, name_kind, kinds, mod)
+            except NotGridTime as exc:
+                chk.ob("C03.O3", False, where_of(mas, s.call), "%s.%s: %s" % (key[0], key[1], exc),
+                       "a grid time: GridTime(%s(%s)%+d)" % WANT_KINDS[key], key="match_all_storms|sink|%s.%s" % key,
+                       why="interval ends must be instants of the time grid (they reference grid_time / water_level rows)")
+                continue
             except AnalysisError as exc:
                 chk.indeterminate("C03.O3", where_of(mas, s.call), "%s.%s: %s" % (key[0], key[1], exc))
                 continue
